@@ -138,7 +138,8 @@ const (
 	c01OpReopenMain
 	c01OpReopenInc
 	c01OpSaveInc
-	c01OpAskAll
+	c01OpCloseInc
+	c01OpFlickInclude
 	c01NOps
 )
 
@@ -174,12 +175,28 @@ func (w *c01Sess) apply(op int) {
 		w.disk[1] = w.buf[1]
 		zzverif.WriteFile(w.path(1), w.disk[1])
 		_ = w.s.DidSave(w.ctx, &protocol.DidSaveTextDocumentParams{TextDocument: protocol.TextDocumentIdentifier{URI: w.uri(1)}})
-	case c01OpAskAll:
-		// a round of every request on every open document: warms whatever the server caches
-		for i := 0; i < 2; i++ {
-			if w.open[i] {
-				_ = c01Ask(w.s, w.uri(i), 5, 6, -1)
+	case c01OpFlickInclude:
+		// the include line is commented out and restored (two changes): the included files leave
+		// the tree and enter it again
+		w.didChange(0, w.text(0, w.edits[0], !w.incOn))
+		w.didChange(0, w.text(0, w.edits[0], w.incOn))
+	case c01OpCloseInc:
+		// closed without saving: the unsaved text is discarded, the file is what the disk holds
+		if w.open[1] {
+			w.didClose(1)
+		}
+	}
+}
+
+// askAll: a round of every request on every open document; warms whatever the server caches.
+func (w *c01Sess) askAll() {
+	for i := 0; i < 2; i++ {
+		if w.open[i] {
+			line := uint32(5)
+			if i == 1 {
+				line = 3
 			}
+			_ = c01Ask(w.s, w.uri(i), line, 6, -1)
 		}
 	}
 }
@@ -188,22 +205,41 @@ func (w *c01Sess) apply(op int) {
 // tokens, tokens.range, format, hover, completion, definition, references, links, wssymbols
 var c01SessRequests = []int{0, 1, 2, 3, 4, 5, 6, 7, 8, 10, 11}
 
-func verifC01Session(steps int, requests []int) {
-	w := &c01Sess{root: zzverif.Root(), incOn: true}
-	ws := zzverif.Choice("ws", 2) == 1
+// c01RunSession: the disk, a server, main.journal open, `steps` operations; with `chatty` the
+// editor asks a round of every request after each operation.
+func c01RunSession(steps int) (w *c01Sess, ws bool) {
+	w = &c01Sess{root: zzverif.Root(), incOn: true}
+	ws = zzverif.Choice("ws", 2) == 1
 	for i := 0; i < 3; i++ {
 		w.disk[i] = w.text(i, 0, true)
 		zzverif.WriteFile(w.path(i), w.disk[i])
 	}
 	w.start(ws)
 	w.didOpen(0, w.disk[0])
+	chatty := zzverif.Choice("chatty", 2) == 1
+	if chatty {
+		w.askAll()
+	}
 	for st := 0; st < steps; st++ {
 		w.apply(zzverif.Choice("op"+zzverif.Itoa(st), c01NOps))
+		if chatty {
+			w.askAll()
+		}
 	}
+	return w, ws
+}
+
+func verifC01Session(steps int, requests []int) {
+	w, ws := c01RunSession(steps)
 	// settle: every open document has been analysed on its current text after the last change
 	// of any document (what a quiet editor session converges to)
-	for i := 0; i < 2; i++ {
-		w.reanalyse(i)
+	// or not: the request then arrives when the other documents have been analysed after their
+	// own changes only (the requesting document's last analysis predates an edit elsewhere)
+	settled := zzverif.Choice("settle", 2) == 1
+	if settled {
+		for i := 0; i < 2; i++ {
+			w.reanalyse(i)
+		}
 	}
 	req := requests[zzverif.Choice("request", len(requests))]
 	from := 0
@@ -246,6 +282,9 @@ func verifC01Session(steps int, requests []int) {
 	otherUnsaved := w.open[1] && w.buf[1] != w.disk[1] && from == 0 || w.open[0] && from == 1
 	if got[0] != want[0] && !ws && otherUnsaved && c01FromAnalysis(want[0]) && zzverif.Known(c01ClsOtherBuffer) {
 		zzverif.Reach("kf:" + c01ClsOtherBuffer)
+	} else if got[0] != want[0] && !ws && !settled && c01FromAnalysis(want[0]) && zzverif.Known(c01ClsPending) {
+		// the requesting document's last analysis predates a change elsewhere (c01_fresh.go)
+		zzverif.Reach("kf:" + c01ClsPending)
 	} else {
 		zzverif.Assert(got[0] == want[0], "C01: after a session of edits and requests a feature answer differs from a fresh server's answer in the same state")
 	}
@@ -253,7 +292,7 @@ func verifC01Session(steps int, requests []int) {
 }
 
 // quick: 2 steps, the requests that read shared state
-func VerifC01Session() { verifC01Session(2, []int{4, 5, 6, 8, 0, 3}) }
+func VerifC01Session() { verifC01Session(2, []int{4, 5, 6, 8, 0}) }
 
 // thorough: 3 steps, every request
 func VerifC01SessionLong() { verifC01Session(3, c01SessRequests) }
